@@ -24,7 +24,11 @@ pub struct Doc {
 }
 
 #[derive(Debug, Clone)]
-pub struct XmlError(pub String);
+pub struct XmlError(pub String, pub &'static str);
+
+fn xe(kind: &'static str, msg: impl Into<String>) -> XmlError {
+    XmlError(msg.into(), kind)
+}
 impl fmt::Display for XmlError {
     fn fmt(&self, f: &mut fmt::Formatter<'_>) -> fmt::Result {
         write!(f, "{}", self.0)
@@ -88,7 +92,7 @@ fn unescape(s: &str) -> Result<String, XmlError> {
     while let Some(i) = rest.find('&') {
         out.push_str(&rest[..i]);
         let after = &rest[i + 1..];
-        let Some(j) = after.find(';') else { return Err(XmlError("unterminated entity reference".into())) };
+        let Some(j) = after.find(';') else { return Err(xe("entity", "unterminated entity reference")) };
         let ent = &after[..j];
         match ent {
             "lt" => out.push('<'),
@@ -102,12 +106,12 @@ fn unescape(s: &str) -> Result<String, XmlError> {
                 } else if let Some(d) = ent.strip_prefix('#') {
                     d.parse::<u32>().ok()
                 } else {
-                    return Err(XmlError(format!("unknown entity &{ent};")));
+                    return Err(xe("entity", format!("unknown entity &{ent};")));
                 };
                 let c = code.and_then(char::from_u32).filter(|c| is_xml_char(*c));
                 match c {
                     Some(c) => out.push(c),
-                    None => return Err(XmlError(format!("bad character reference &{ent};"))),
+                    None => return Err(xe("entity", format!("bad character reference &{ent};"))),
                 }
             }
         }
@@ -126,45 +130,45 @@ fn normalize_newlines(s: &str) -> String {
 }
 
 pub fn parse(bytes: &[u8]) -> Result<Doc, XmlError> {
-    let text = std::str::from_utf8(bytes).map_err(|_| XmlError("not UTF-8".into()))?;
+    let text = std::str::from_utf8(bytes).map_err(|_| xe("illegal-char", "not UTF-8"))?;
     if !text.chars().all(is_xml_char) {
-        return Err(XmlError("character not allowed in XML 1.0".into()));
+        return Err(xe("illegal-char", "character not allowed in XML 1.0"));
     }
     let mut stack: Vec<Element> = Vec::new();
     let mut root: Option<Element> = None;
     let mut has_decl = false;
     let mut cur_open: Option<Element> = None; // element whose start tag is being read
     for tok in xmlparser::Tokenizer::from(text) {
-        let tok = tok.map_err(|e| XmlError(format!("tokenizer: {e}")))?;
+        let tok = tok.map_err(|e| xe("lexical", format!("tokenizer: {e}")))?;
         use xmlparser::{ElementEnd, Token};
         match tok {
             Token::Declaration { .. } => has_decl = true,
             Token::ProcessingInstruction { .. } | Token::Comment { .. } => {}
             Token::DtdStart { .. } | Token::EmptyDtd { .. } | Token::EntityDeclaration { .. } | Token::DtdEnd { .. } => {
-                return Err(XmlError("DTD not supported by the reference reader".into()));
+                return Err(xe("dtd", "DTD not supported by the reference reader"));
             }
             Token::ElementStart { prefix, local, .. } => {
                 if root.is_some() && stack.is_empty() {
-                    return Err(XmlError("content after the root element".into()));
+                    return Err(xe("content-after-root", "content after the root element"));
                 }
                 let name = if prefix.is_empty() { local.to_string() } else { format!("{prefix}:{local}") };
                 cur_open = Some(Element { name, attrs: Vec::new(), children: Vec::new() });
             }
             Token::Attribute { prefix, local, value, .. } => {
-                let Some(e) = cur_open.as_mut() else { return Err(XmlError("attribute outside a tag".into())) };
+                let Some(e) = cur_open.as_mut() else { return Err(xe("lexical", "attribute outside a tag")) };
                 let name = if prefix.is_empty() { local.to_string() } else { format!("{prefix}:{local}") };
                 if e.attrs.iter().any(|(n, _)| *n == name) {
-                    return Err(XmlError("duplicate attribute".into()));
+                    return Err(xe("attribute", "duplicate attribute"));
                 }
-                e.attrs.push((name, unescape(value.as_str())?));
+                e.attrs.push((name, unescape(value.as_str()).map_err(|e| xe("attribute", e.0))?));
             }
             Token::ElementEnd { end, .. } => match end {
                 ElementEnd::Open => {
-                    let e = cur_open.take().ok_or_else(|| XmlError("stray '>'".into()))?;
+                    let e = cur_open.take().ok_or_else(|| xe("lexical", "stray '>'"))?;
                     stack.push(e);
                 }
                 ElementEnd::Empty => {
-                    let e = cur_open.take().ok_or_else(|| XmlError("stray '/>'".into()))?;
+                    let e = cur_open.take().ok_or_else(|| xe("lexical", "stray '/>'"))?;
                     match stack.last_mut() {
                         Some(p) => p.children.push(Node::Element(e)),
                         None => root = Some(e),
@@ -172,9 +176,9 @@ pub fn parse(bytes: &[u8]) -> Result<Doc, XmlError> {
                 }
                 ElementEnd::Close(prefix, local) => {
                     let name = if prefix.is_empty() { local.to_string() } else { format!("{prefix}:{local}") };
-                    let e = stack.pop().ok_or_else(|| XmlError("close tag without open tag".into()))?;
+                    let e = stack.pop().ok_or_else(|| xe("mismatched-tags", "close tag without open tag"))?;
                     if e.name != name {
-                        return Err(XmlError(format!("mismatched close tag </{name}> for <{}>", e.name)));
+                        return Err(xe("mismatched-tags", format!("mismatched close tag </{name}> for <{}>", e.name)));
                     }
                     match stack.last_mut() {
                         Some(p) => p.children.push(Node::Element(e)),
@@ -194,7 +198,7 @@ pub fn parse(bytes: &[u8]) -> Result<Doc, XmlError> {
                     }
                     None => {
                         if !raw.chars().all(|c| matches!(c, ' ' | '\t' | '\r' | '\n')) {
-                            return Err(XmlError("text outside the root element".into()));
+                            return Err(xe("text-outside-root", "text outside the root element"));
                         }
                     }
                 }
@@ -207,16 +211,16 @@ pub fn parse(bytes: &[u8]) -> Result<Doc, XmlError> {
                         _ => p.children.push(Node::Text(t)),
                     }
                 }
-                None => return Err(XmlError("CDATA outside the root element".into())),
+                None => return Err(xe("text-outside-root", "CDATA outside the root element")),
             },
         }
     }
     if !stack.is_empty() || cur_open.is_some() {
-        return Err(XmlError("unexpected end of document".into()));
+        return Err(xe("unexpected-end", "unexpected end of document"));
     }
     match root {
         Some(root) => Ok(Doc { root, has_decl }),
-        None => Err(XmlError("no root element".into())),
+        None => Err(xe("no-root", "no root element")),
     }
 }
 
